@@ -178,7 +178,8 @@ def main(tier):
         if s is not None:
             evs_, tail = s
             shape = [(e[0], e[1]) if len(e) > 2 else (e[0],) for e in evs_]
-            ok_e = shape == [("next",), ("ast", "param:oper_prec"), ("check", "param:end_token")] and all(e[-1] == "tried" for e in evs_) \
+            fe_ = m.tb.fn("::parser::Parser::get_enclosed_elements_with_impl_mult")
+            ok_e = shape == [("next",), ("ast", "param:%s" % m._param_name(fe_, 1)), ("check", "param:%s" % m._param_name(fe_, 2))] and all(e[-1] == "tried" for e in evs_) \
                 and tail[0] == "tailcall" and tail[1][0] == "impl" and M("(icall (param ?g) (R1))", tail[1][1]) is not None
             run.ob(ok_e, "enclosed|%s" % ev, "C04-6 bracket helper: consume opener, parse inner at the given level, require the given closer, wrap",
                    where(m, "::parser::Parser::get_enclosed_elements_with_impl_mult"), "effects %s then %s" % (shape, show_tail(tail)[:120]))
